@@ -5,14 +5,19 @@
    sha256 / dsha256 are arbitrary functions (Section variables of the model): every theorem holds for all of them.
    tx_wf: fields in their wire ranges (32-byte outpoint hashes, 32-bit index/sequence/version/lock time, 64-bit amounts).
 
-   One family of inputs is excluded by a NAMED predicate and refuted without the exclusion (known finding):
-     * script codes with an undecodable instruction (`core_decodable script = false`): pycoin's walk goes on behind the
-       bad instruction; exact condition for FindAndDelete: `rewalk_excluded` (C04_find_and_delete_exact).
-       No successful script evaluation can contain such a script, in Core or in pycoin.  The refuting witness
-       (ac 05 00 ab: pycoin strips the trailing ab, Core does not look behind the truncated push) does not depend on
-       how Core's serializer treats the bytes of the bad instruction itself.
-   (The second family of the first version of this file — one-byte signature blobs, whose MINIMAL push pycoin removed —
-   is gone: since /repo commit 2ba5b6d _delete_signature removes the plain push, which is Core's CScript() << sig.)
+   History.  The first version of this file excluded two input families by named predicates (one-byte signature
+   blobs; script codes with an undecodable instruction) and refuted the unrestricted statements.  Both deviations
+   were repaired in /repo (commits 2ba5b6d, 50939fb): _delete_signature removes the plain push = CScript() << sig,
+   and delete_subscript stops at the first undecodable instruction and keeps the rest, as Core's FindAndDelete.
+   The model follows the repaired code; every theorem below quantifies over ALL scripts, no exclusion is left.
+
+   Legacy digest and undecodable scripts.  Core has had two formulations of how the script code enters the legacy
+   preimage: the original one (FindAndDelete of OP_CODESEPARATOR, then the script serialized as a whole;
+   SignatureHashOld in Core's sighash_tests.cpp) and today's streaming SerializeScriptCode.  They agree on every
+   decodable script (C04_core_formulations_agree) and differ from EACH OTHER on scripts with an undecodable
+   instruction (C04_core_formulations_differ_on_undecodable), which no successful evaluation can contain.
+   pycoin equals the original formulation on all scripts (C04_legacy_preimage_eq) and hence the streaming one on all
+   decodable scripts (C04_legacy_preimage_eq_streaming).
    "Computing a hash never modifies the transaction" is not a theorem (a pure model cannot alias): direct check only. *)
 From PV Require Import Base.Bytes Base.Outcome Base.Varint Gen.GenOpcodes Gen.GenSighashC04
   Model.Push Model.Sighash Spec.SighashCore Model.SighashBridge Proofs.PushP Proofs.SighashP.
@@ -24,32 +29,11 @@ Theorem C04_delete_subscript_total : forall script sub : bytes,
 Proof. exact delete_subscript_total. Qed.
 Print Assumptions C04_delete_subscript_total.
 
-(* ---- FindAndDelete ------------------------------------------------------------------------------------ *)
-(* full statement: for every script and every pattern that is one complete instruction *)
-Definition C04_find_and_delete_statement : Prop := find_and_delete_statement.
-Theorem C04_find_and_delete_refuted_rewalk : ~ C04_find_and_delete_statement.
-Proof. exact find_and_delete_refuted. Qed.
-Print Assumptions C04_find_and_delete_refuted_rewalk.
-
-(* exact: pycoin = Core iff pycoin's continued walk removes nothing behind the first undecodable instruction *)
-Theorem C04_find_and_delete_exact : forall pat script : bytes, complete_instruction pat ->
-  (delete_subscript script pat = Ret (core_find_and_delete pat script) <-> rewalk_excluded pat script = false).
-Proof. exact find_and_delete_iff. Qed.
-Print Assumptions C04_find_and_delete_exact.
-
-(* ... and what both produce in general: a common part G, then Core copies the tail, pycoin walks on *)
-Theorem C04_find_and_delete_general : forall pat script : bytes, complete_instruction pat ->
-  exists G w, core_find_and_delete pat script = G ++ undecodable_tail script
-           /\ delete_subscript (undecodable_tail script) pat = Ret w
-           /\ delete_subscript script pat = Ret (G ++ w).
-Proof. exact find_and_delete_general. Qed.
-Print Assumptions C04_find_and_delete_general.
-
-Theorem C04_find_and_delete_eq_partial : forall pat script : bytes,
-  complete_instruction pat -> core_decodable script = true ->
+(* ---- FindAndDelete: every script (decodable or not), every pattern that is one complete instruction ---- *)
+Theorem C04_find_and_delete_eq : forall pat script : bytes, complete_instruction pat ->
   delete_subscript script pat = Ret (core_find_and_delete pat script).
-Proof. exact find_and_delete_decodable. Qed.
-Print Assumptions C04_find_and_delete_eq_partial.
+Proof. exact find_and_delete_q. Qed.
+Print Assumptions C04_find_and_delete_eq.
 
 (* the signature being checked: the pattern pycoin removes IS Core's CScript() << sig (every blob below 2^32 bytes) *)
 Theorem C04_signature_pattern_is_core_push : forall sig : bytes, N.of_nat (length sig) < 2 ^ 32 ->
@@ -57,42 +41,50 @@ Theorem C04_signature_pattern_is_core_push : forall sig : bytes, N.of_nat (lengt
 Proof. exact signature_pattern_q. Qed.
 Print Assumptions C04_signature_pattern_is_core_push.
 
-(* full statement over all scripts: still refuted by the walk behind an undecodable instruction *)
-Definition C04_delete_signature_statement : Prop := delete_signature_statement.
-Theorem C04_delete_signature_refuted_rewalk : ~ C04_delete_signature_statement.
-Proof. exact delete_signature_refuted. Qed.
-Print Assumptions C04_delete_signature_refuted_rewalk.
-
-(* C04_find_and_delete_eq for the signature pattern: every blob (no exclusion on the blob), every decodable script *)
-Theorem C04_delete_signature_eq_partial : forall script sig : bytes,
-  N.of_nat (length sig) < 2 ^ 32 -> core_decodable script = true ->
+Theorem C04_delete_signature_eq : forall script sig : bytes, N.of_nat (length sig) < 2 ^ 32 ->
   delete_signature script sig = Ret (core_find_and_delete (core_push sig) script).
-Proof. exact delete_signature_decodable. Qed.
-Print Assumptions C04_delete_signature_eq_partial.
+Proof. exact delete_signature_eq. Qed.
+Print Assumptions C04_delete_signature_eq.
 
-Theorem C04_delete_signature_exact : forall script sig : bytes,
-  N.of_nat (length sig) < 2 ^ 32 ->
-  (delete_signature script sig = Ret (core_find_and_delete (core_push sig) script)
-   <-> rewalk_excluded (core_push sig) script = false).
-Proof. exact delete_signature_iff. Qed.
-Print Assumptions C04_delete_signature_exact.
+(* a blob of 2^32 bytes or more cannot be length-prefixed: OverflowError *)
+Theorem C04_delete_signature_overflow : forall script sig : bytes, 2 ^ 32 <= N.of_nat (length sig) ->
+  delete_signature script sig = Raise E_OVERFLOW.
+Proof. exact delete_signature_overflow. Qed.
+Print Assumptions C04_delete_signature_overflow.
 
 (* CHECKMULTISIG: every signature removed in turn (sig_for_hash_type_f) = Core's script code *)
-Theorem C04_multisig_script_code_partial : forall (sigs : list bytes) (script : bytes),
+Theorem C04_multisig_script_code : forall (sigs : list bytes) (script : bytes),
   Forall (fun sg => N.of_nat (length sg) < 2 ^ 32) sigs ->
-  core_decodable script = true ->
   delete_signatures script sigs = Ret (core_script_code_base script sigs).
-Proof. exact delete_signatures_decodable. Qed.
-Print Assumptions C04_multisig_script_code_partial.
+Proof. exact delete_signatures_eq. Qed.
+Print Assumptions C04_multisig_script_code.
 
 (* ---- legacy SignatureHash ------------------------------------------------------------------------------ *)
-Definition C04_legacy_statement : Prop := legacy_statement.
-Theorem C04_legacy_refuted_undecodable_script : ~ C04_legacy_statement.
-Proof. exact legacy_refuted. Qed.
-Print Assumptions C04_legacy_refuted_undecodable_script.
+(* the bytes pycoin hashes = the bytes Core's serializer writes: all transactions, ALL scripts, all hash types *)
+Theorem C04_legacy_preimage_eq : forall (t : tx) (script : bytes) (idx : nat) (ht : N),
+  tx_wf t -> (idx < length (tx_ins t))%nat -> ht < 2 ^ 32 -> N.of_nat (length script) < 2 ^ 64 ->
+  legacy_presig t script idx ht
+  = Ret (match core_signature_hash_old script (to_core t) idx ht with
+         | CoreOne => PConst (2 ^ 248)
+         | CorePreimage p => PPreimage p
+         end).
+Proof. exact legacy_presig_eq. Qed.
+Print Assumptions C04_legacy_preimage_eq.
 
-(* the bytes pycoin hashes = the bytes Core's streaming serializer writes (all hash types: ht < 2^32) *)
-Theorem C04_legacy_preimage_eq_partial : forall (t : tx) (script : bytes) (idx : nat) (ht : N),
+Theorem C04_core_formulations_agree : forall (script : bytes) (tx : CTransaction) (nIn : nat) (ht : N),
+  core_decodable script = true ->
+  core_signature_hash_legacy script tx nIn ht = core_signature_hash_old script tx nIn ht.
+Proof. exact core_formulations_agree. Qed.
+Print Assumptions C04_core_formulations_agree.
+
+Theorem C04_core_formulations_differ_on_undecodable :
+  core_decodable witness_script = false
+  /\ core_signature_hash_legacy witness_script (to_core witness_tx) 0 1
+     <> core_signature_hash_old witness_script (to_core witness_tx) 0 1.
+Proof. exact core_formulations_differ_on_undecodable. Qed.
+Print Assumptions C04_core_formulations_differ_on_undecodable.
+
+Theorem C04_legacy_preimage_eq_streaming : forall (t : tx) (script : bytes) (idx : nat) (ht : N),
   tx_wf t -> (idx < length (tx_ins t))%nat -> ht < 2 ^ 32 -> N.of_nat (length script) < 2 ^ 64 ->
   core_decodable script = true ->
   legacy_presig t script idx ht
@@ -100,18 +92,18 @@ Theorem C04_legacy_preimage_eq_partial : forall (t : tx) (script : bytes) (idx :
          | CoreOne => PConst (2 ^ 248)
          | CorePreimage p => PPreimage p
          end).
-Proof. exact legacy_presig_eq. Qed.
-Print Assumptions C04_legacy_preimage_eq_partial.
+Proof. exact legacy_streaming_q. Qed.
+Print Assumptions C04_legacy_preimage_eq_streaming.
 
 (* the integer _signature_hash returns = Core's digest bytes read big-endian, Bitcoin and Litecoin classes *)
-Theorem C04_legacy_digest_btc_ltc_partial :
+Theorem C04_legacy_digest_btc_ltc :
   forall (sha256 dsha256 : bytes -> bytes) (t : tx) (script : bytes) (idx : nat) (ht : N) (c : coin),
   tx_wf t -> (idx < length (tx_ins t))%nat -> ht < 2 ^ 32 -> N.of_nat (length script) < 2 ^ 64 ->
-  c = BTC \/ c = LTC -> core_decodable script = true ->
+  c = BTC \/ c = LTC ->
   signature_hash sha256 dsha256 c t script idx ht
-  = Ret (be_decode (core_digest dsha256 (core_signature_hash_legacy script (to_core t) idx ht))).
+  = Ret (be_decode (core_digest dsha256 (core_signature_hash_old script (to_core t) idx ht))).
 Proof. exact legacy_digest_btc_ltc. Qed.
-Print Assumptions C04_legacy_digest_btc_ltc_partial.
+Print Assumptions C04_legacy_digest_btc_ltc.
 
 (* the SIGHASH_SINGLE bug value: no hypothesis on the transaction, the script or the rest of the hash type *)
 Theorem C04_single_bug_value : forall (t : tx) (script : bytes) (idx : nat) (ht : N),
@@ -186,9 +178,8 @@ Theorem C04_grs_single_sha :
   forall (sha256 dsha256 : bytes -> bytes) (t : tx) (script : bytes) (idx : nat) (ht : N) (u : txout),
   tx_wf t -> (idx < length (tx_ins t))%nat -> ht < 2 ^ 32 -> N.of_nat (length script) < 2 ^ 64 ->
   nth_error (tx_unspents t) idx = Some (Some u) -> to_value u < 2 ^ 64 ->
-  (core_decodable script = true ->
-   signature_hash sha256 dsha256 GRS t script idx ht
-   = Ret (be_decode (core_digest sha256 (core_signature_hash_legacy script (to_core t) idx ht))))
+  signature_hash sha256 dsha256 GRS t script idx ht
+  = Ret (be_decode (core_digest sha256 (core_signature_hash_old script (to_core t) idx ht)))
   /\ signature_for_hash_type_segwit sha256 dsha256 GRS t script idx ht
      = Ret (be_decode (sha256 (bip143_preimage sha256 script (to_core t) idx (to_value u) ht))).
 Proof. exact grs_single_sha. Qed.
@@ -202,8 +193,9 @@ Example C04_hypotheses_satisfiable :
      = Ret (PPreimage ([x01; x00; x00; x00; x01] ++ repeatb x11 32 ++ [x00; x00; x00; x00]
                        ++ [x05; x02; x30; x01; xac; x51] ++ [xff; xff; xff; xff]
                        ++ [x01; x01; x00; x00; x00; x00; x00; x00; x00; x01; x51]
-                       ++ [x00; x00; x00; x00] ++ [x01; x00; x00; x00])).
+                       ++ [x00; x00; x00; x00] ++ [x01; x00; x00; x00]))
+  /\ delete_subscript witness_script [xab] = Ret witness_script.
 Proof.
   split; [exact witness_tx_wf|]. split; [exact example_decodable|]. split; [exact codesep_complete|].
-  split; vm_compute; reflexivity.
+  repeat split; vm_compute; reflexivity.
 Qed.
